@@ -24,9 +24,13 @@ package fs
 //@   ensures rdev: isptr(fi.Sys(), syscall.Stat_t) ==> arg(Mknod, 2) == ite(fi.Mode() & os.ModeDevice == os.ModeDevice || fi.Mode() & os.ModeCharDevice == os.ModeCharDevice, int(asptr(fi.Sys(), syscall.Stat_t).Rdev), 0)
 
 // every xattr is read and written with the no-follow variants only
+// ... and every attribute the source lists is attempted: a failure the caller's handler tolerates
+// (it returns nil) costs that one attribute, not the ones listed after it
 //@ func copyXAttrs
 //@   property C13 C14
-//@   effects LListxattr LGetxattr LSetxattr XattrErr
+//@   effects LListxattr LListxattrRes LGetxattr LSetxattr XattrErr
+//@   ensures every_listed_attribute_attempted: result == nil && arg(LListxattrRes, 1) == nil ==> cnt(LGetxattr) == old(cnt(LGetxattr)) + arg(LListxattrRes, 0)
+//@   loop 0 invariant each_key_read: cnt(LGetxattr) == old(cnt(LGetxattr)) + rangeindex + 1 && cnt(LListxattrRes) == old(cnt(LListxattrRes)) + 1 && arg(LListxattrRes, 1) == nil && arg(LListxattrRes, 0) == len(xattrKeys) && rangeindex < len(xattrKeys)
 //@   loop 0 invariant dst_only: cnt(LSetxattr) == old(cnt(LSetxattr)) || arg(LSetxattr, 0) == dst
 //@   ensures dst_only: cnt(LSetxattr) > old(cnt(LSetxattr)) ==> arg(LSetxattr, 0) == dst
 //@   ensures listed: cnt(LListxattr) == old(cnt(LListxattr)) + 1 && arg(LListxattr, 0) == src
@@ -184,7 +188,7 @@ package fs
 //@   property C16 C14
 //@   requires c != nil
 //@   modifies c.parentDirs[*]
-//@   effects Stat StatRes Lstat LstatRes Mkdir MkdirOK Chmod ChownerCall ChownerRes Lchown Utimes LListxattr LGetxattr LSetxattr XattrErr
+//@   effects Stat StatRes Lstat LstatRes Mkdir MkdirOK Chmod ChownerCall ChownerRes Lchown Utimes LListxattr LListxattrRes LGetxattr LSetxattr XattrErr
 //@   loop 0 invariant done: forall k int :: 0 <= k && k <= rangeindex && k < len(c.parentDirs) ==> c.parentDirs[k].copied
 //@   loop 0 invariant same: forall k int :: 0 <= k && k < len(c.parentDirs) ==> c.parentDirs[k].srcPath == old(c.parentDirs[k].srcPath) && c.parentDirs[k].dstPath == old(c.parentDirs[k].dstPath) && (old(c.parentDirs[k].copied) ==> c.parentDirs[k].copied)
 //@   loop 0 invariant idle: (forall k int :: 0 <= k && k < len(c.parentDirs) ==> old(c.parentDirs[k].copied)) ==> clk() == old(clk())
@@ -398,3 +402,74 @@ package fs
 //@   property C15
 //@   modifies array string
 //@   effects RootResolve GlobMatch GlobMatchRes
+
+// ---------------------------------------------------------------------------
+// options of Copy: each option sets exactly the field it names, to the value given
+// (an owner option that swapped uid and gid, a pattern option that replaced instead of
+// appended, would change what "the requested owner" / "the patterns" are for every copy)
+// ---------------------------------------------------------------------------
+//@ func WithCopyInfo$1
+//@   property C13 C15 C16
+//@   requires c != nil
+//@   modifies *c
+//@ func WithChown$1
+//@   property C13
+//@   requires ci != nil
+//@   modifies ci.Chown
+//@   ensures chowner_set: ci.Chown != nil
+//@ func WithChown$1$1
+//@   property C13
+//@   ensures the_owner_given: result1 == nil && result0 != nil && fresh(result0) && result0.UID == uid && result0.GID == gid && result0.SID == ""
+//@ func AllowWildcards
+//@   property C15
+//@   requires ci != nil
+//@   modifies ci.AllowWildcards
+//@   ensures ci.AllowWildcards
+//@ func WithXAttrErrorHandler$1
+//@   property C13
+//@   requires ci != nil
+//@   modifies ci.XAttrErrorHandler
+//@   ensures ci.XAttrErrorHandler == h
+//@ func AllowXAttrErrors$1
+//@   property C13
+//@   ensures ignores: result == nil
+//@ func WithIncludePattern$1
+//@   property C16
+//@   requires ci != nil
+//@   modifies ci.IncludePatterns, ci.IncludePatterns[*]
+//@   ensures appended_last: len(ci.IncludePatterns) == old(len(ci.IncludePatterns)) + 1 && ci.IncludePatterns[len(ci.IncludePatterns)-1] == includePattern
+//@   ensures earlier_kept_in_order: forall k int :: {ci.IncludePatterns[k]} 0 <= k && k < old(len(ci.IncludePatterns)) ==> ci.IncludePatterns[k] == old(ci.IncludePatterns[k])
+//@ func WithExcludePattern$1
+//@   property C16
+//@   requires ci != nil
+//@   modifies ci.ExcludePatterns, ci.ExcludePatterns[*]
+//@   ensures appended_last: len(ci.ExcludePatterns) == old(len(ci.ExcludePatterns)) + 1 && ci.ExcludePatterns[len(ci.ExcludePatterns)-1] == excludePattern
+//@   ensures earlier_kept_in_order: forall k int :: {ci.ExcludePatterns[k]} 0 <= k && k < old(len(ci.ExcludePatterns)) ==> ci.ExcludePatterns[k] == old(ci.ExcludePatterns[k])
+//@ func WithChangeNotifier$1
+//@   property C13 C16
+//@   requires ci != nil
+//@   modifies ci.ChangeFunc
+//@   ensures ci.ChangeFunc == fn
+
+//@ func getUIDGID
+//@   property C13
+//@   requires fi != nil && isptr(fi.Sys(), syscall.Stat_t) && asptr(fi.Sys(), syscall.Stat_t) != nil
+//@   ensures owner_of_the_entry: uid == int(asptr(fi.Sys(), syscall.Stat_t).Uid) && gid == int(asptr(fi.Sys(), syscall.Stat_t).Gid)
+//@ func GetLinkInfo
+//@   property C13
+//@   requires isptr(fi.Sys(), syscall.Stat_t) ==> asptr(fi.Sys(), syscall.Stat_t) != nil
+//@   ensures link: isptr(fi.Sys(), syscall.Stat_t) ==> result0 == asptr(fi.Sys(), syscall.Stat_t).Ino && result1 == (!fi.IsDir() && asptr(fi.Sys(), syscall.Stat_t).Nlink > 1)
+//@ func StatAtime
+//@   property C13
+//@   requires st != nil
+//@   ensures result.Sec == st.Atim.Sec && result.Nsec == st.Atim.Nsec
+//@ func StatMtime
+//@   property C13
+//@   requires st != nil
+//@   ensures result.Sec == st.Mtim.Sec && result.Nsec == st.Mtim.Nsec
+//@ func fixRootDirectory
+//@   property C14
+//@   ensures result == p
+//@ func rel
+//@   property C15
+//@   ensures same_as_filepath_rel: result0 == filepath.Rel(basepath, targpath) && result1 == filepath.Rel#1(basepath, targpath)
